@@ -4,3 +4,9 @@ from qcheck import engine_check
 
 def run(tier):
     return engine_check("C04", tier)
+
+
+def replay(record):
+    from qcheck import replay as r
+
+    return r(record)
